@@ -130,14 +130,18 @@ class FakeProc:
         self.term_calls = 0
         self.wait_calls = 0
         self.ignores_term = pool.ignore_term
+        self.big_output = pool.big_output   # writes more than the pipes hold: it can only exit while somebody reads them
+        self.reading = False
         self.stdout = ("out of %s" % script).encode()
         self.stderr = ("err of %s" % script).encode()
         self.ran_to_end = False
+        self.rc_given = None
 
     def alive(self):
         return self.returncode is None
 
     async def communicate(self):
+        self.reading = True
         await asyncio.shield(self.exit)
         return self.stdout, self.stderr
 
@@ -207,6 +211,7 @@ async def _fake_shell(script, stdout=None, stderr=None, cwd=None, **kw):
     deps = p.deps.get(tid, [])
     p.spawn_facts[tid] = {
         "deps_done_completed": all((d in s.tasks and s.tasks[d].done() and s.task_states.get(d) == LocalStatus.COMPLETED) for d in deps),
+        "deps_truly_ok": [(p.proc_of(d) is not None and p.proc_of(d).ran_to_end and p.proc_of(d).rc_given == 0) for d in deps],
         "live_at_spawn": sum(1 for q in p.procs if q.alive()),
         "state_at_spawn": s.task_states.get(tid),
     }
@@ -216,8 +221,9 @@ async def _fake_shell(script, stdout=None, stderr=None, cwd=None, **kw):
 class Pool:
     ROOT = "/vfs/proj"
 
-    def __init__(self, max_cores=1, ignore_term=False):
+    def __init__(self, max_cores=1, ignore_term=False, big_output=False):
         global POOL
+        self.big_output = big_output
         self.loop = DetLoop()
         self.world = vfs.VFS()
         self.world.dirs.update({self.ROOT, self.ROOT + "/.gwf", self.ROOT + "/.gwf/logs"})
@@ -327,6 +333,10 @@ class Pool:
 
     def live(self):
         return [p for p in self.procs if p.alive()]
+
+    def can_exit(self):
+        """Live children that are able to terminate by themselves now (a child blocked on a full pipe is not)."""
+        return [p for p in self.procs if p.alive() and (p.reading or not p.big_output)]
 
     def state(self, tid):
         return self.sched.task_states.get(tid)
